@@ -362,6 +362,23 @@ theorem locate_ok_in_bounds (N : Nat) (x : Nat → Rat) (st : Interp.LState) (v 
 example : inDomain 3 (fun i => (i : Rat)) (-1/200) := by
   right; left; simp [rabs]; norm_num
 
+/-- the domain guard does not depend on the call history of the object: after ANY sequence of
+    accepted calls (any search state) an abscissa outside the tolerated domain stops the program -/
+theorem history_guard_iff (N : Nat) (x : Nat → Rat) (vs : List Rat) :
+    ∀ st : Interp.LState, historyGuard N x st vs = stop ↔ ¬ historyMeaningful N x vs := by
+  induction vs with
+  | nil => intro st; simp [historyGuard, historyMeaningful, stop, pass]
+  | cons v vs ih =>
+    intro st
+    unfold historyGuard
+    rcases locate_cases N x st v with ⟨hd, j, st', h⟩ | ⟨hd, h⟩
+    · rw [h]; simp only []
+      rw [ih st']
+      unfold historyMeaningful
+      simp [hd]
+    · rw [h]; simp only [true_iff]
+      exact fun hh => hd (hh v (List.mem_cons_self))
+
 theorem integrate_guard_iff (N : Nat) (x : Nat → Rat) (st : Interp.LState) (v1 v2 : Rat) :
     integrateGuard N x st v1 v2 = stop ↔ ¬ integrateMeaningful N x v1 v2 := by
   unfold integrateGuard integrateMeaningful
